@@ -65,7 +65,8 @@ func (s *Server) healthCheckLoop() {
 			s.healthCheck()
 			t.Reset(interval)
 		case <-s.Closed:
-			break
+			// a bare break would only leave the select and spin forever
+			return
 		}
 	}
 }
